@@ -93,8 +93,31 @@ OddModule = type("RemoteError", (Exception,), {"__module__": None})
 OddModule2 = type("Weird", (KeyError,), {"__module__": 7})
 
 
+class OneShot:
+    """A one-shot iterator the application still wants to use after logging it (a generator, a file, a DB cursor): logging
+    it must not consume it."""
+    made = []
+
+    def __init__(self):
+        self.left = [1, 2, 3]
+        self.touched = None
+        OneShot.made.append(self)
+
+    def __iter__(self):
+        self.touched = self.touched or "__iter__"
+        return self
+
+    def __next__(self):
+        self.touched = "__next__"
+        if not self.left:
+            raise StopIteration
+        return self.left.pop(0)
+
+
 def hostile_value(rng, depth=0):
-    r = rng.randrange(16)
+    r = rng.randrange(17)
+    if r == 16:
+        return OneShot()
     if r == 0:
         return BadStr()
     if r == 1:
@@ -216,10 +239,15 @@ def hostile_run(ctx, i):
         if _action.current_action() is not None:
             problems.append("current_action() not None after the program")
 
+    OneShot.made = []
     try:
         contextvars.Context().run(body)
     finally:
         dst._destinations, dst._any_added, dst._globalFields = saved
+    for o in OneShot.made:
+        if o.touched == "__next__" or o.left != [1, 2, 3]:
+            problems.append("a one-shot iterator logged as a field value was consumed by the logging calls (%d of 3 items left)" % len(o.left))
+            break
     return problems, len(seen)
 
 
